@@ -186,10 +186,11 @@ class S(explore.Spec):
 
 
 G1 = [u for u in universe.G1 if "2M1I" not in u]   # no parallel link: see ambiguous()
-S(name="c05.g1", universe=G1, version="gfa1", rename_targets=("Z",), tag_ops=False)
+S(name="c05.g1", universe=G1, version="gfa1", rename_targets=("Z",), tag_ops=False,
+  unname_ops=True)
 S(name="c05.g2", universe=universe.G2_SINGLE, version="gfa2", rename_targets=("z",))
 S(name="c05.g1core", universe=universe.G1_CORE, version="gfa1",
-  rename_targets=("Z",), tag_ops=True, name_unnamed=("n1",))
+  rename_targets=("Z",), tag_ops=True, name_unnamed=("n1",), unname_ops=True)
 S(name="c05.g2core", universe=universe.G2_CORE, version="gfa2",
   rename_targets=("z",), tag_ops=True, name_unnamed=("n1",))
 
